@@ -14,7 +14,8 @@ SPECIAL = [0.0, -0.0, 5e-324, 2.2250738585072014e-308, 1.7976931348623157e308, -
 NA_LABELS = ["NA", "null", "NULL", "NaN", "none"]
 GROUPS = ["kinetic", "irf", "a", "b1", "osc.rates", "_x", "K", "rates.k", "s", "inputs", "scale.d1"]
 TRICKY = ["x.e", "pi.x", "nan.1", "inf.a", "True.1", "NA.1", "k.NA", "k.null", "k.inf", "k.nan", "k.None", "e.1", "k.e",
-          "a.none", "1.NaN", "abs.1", "k.maximum", "k.1e3", "1e3.k", "k.", ".k", "a..b", "N.A", "k.NULL", "id.x"]
+          "a.none", "1.NaN", "abs.1", "k.maximum", "k.1e3", "1e3.k", "k.", ".k", "a..b", "N.A", "k.NULL", "id.x",
+          "k.1e3x", "k.2e5_a", "1e3x.k"]      # short labels that only start like a scientific-notation number
 SERIALIZED = {"expression": "expr", "maximum": "max", "minimum": "min", "non_negative": "non-negative",
               "standard_error": "standard-error"}
 
@@ -423,7 +424,10 @@ def rand_group(rng, depth):
 # ------------------------------------------------------------------------------------------
 # intents: what the author of a specification means; rendered in many styles
 # ------------------------------------------------------------------------------------------
-INTENT_LABELS = ["k1", "amp", "center", "width", "x_1", "T", "foo", "b", "q", "kappa", "1.10", "007", "2.50", "k.1", "e", "pi"]
+# "1e3x", "2e5_k", "1e3_4": valid labels with a number-like prefix (convert_scientific_to_float has to leave them alone: fullmatch;
+# float("1e3_4") is 1e34, so a prefix match would silently turn that label into a value)
+INTENT_LABELS = ["k1", "amp", "center", "width", "x_1", "T", "foo", "b", "q", "kappa", "1.10", "007", "2.50", "k.1", "e", "pi",
+                 "1e3x", "2e5_k", "1e3_4"]
 INTENT_GROUPS = ["a", "b", "kinetic", "irf", "osc", "rates", "1", "10", "2", "k_1", "x", "007", "1.10"]
 
 
